@@ -27,6 +27,39 @@ ASSUMPTIONS = ['gambit-parser and serde_json parse their formats correctly', 'ut
 NOT_DECIDED = ['numeric equality of printed values with an independent evaluation']
 
 
+def payoff_source(ctx, pid):
+    """Gambit outcomes may be defined at one node and referenced by number elsewhere, so a node's payoff is
+    the outcome *table* entry of its outcome id — never the node's own (optional) payoff list.  Structural
+    form: every call of the parser's `outcome_payoffs()` feeds an insertion into the outcome table; the two
+    consumers (game construction and the constant-sum scan) can then only read the table."""
+    rule = '%s.payoff-source' % pid
+    b = ctx.bin
+    n = 0
+    bad = []
+    inserts = []
+    fns = [f for f in b.non_test_fns() if f.name.startswith(('gambit::', '<gambit::'))]
+    for f in fns:
+        for bi, t, e in q.calls_named(f, 'insert'):
+            if 'HashMap' in e[1]:
+                inserts.append((f, e))
+    for f in fns:
+        for bi, t, p in f.calls():
+            if short(p) != 'outcome_payoffs' or 'gambit_parser' not in (t['callee'].get('krate') or p):
+                continue
+            n += 1
+            ctx.touch(f)
+            site = (f.name, bi)
+            feeds = any(g is f and q.find_sub(e, lambda x: x[0] == 'call' and x[3] == site) is not None for g, e in inserts)
+            if not feeds:
+                bad.append(f.where(bi))
+    if n == 0:
+        ctx.anchor_lost(rule, 'gambit reader: outcome_payoffs() calls building the outcome table')
+        return
+    ctx.verdict(not bad, rule, rule + ':table-only', 'a node\'s own payoff list (`outcome_payoffs()`) is only used to fill the outcome table; payoffs are consumed through the table keyed by the outcome id',
+                bad[0] if bad else '', '%d outcome_payoffs() call(s); not feeding a table insertion: %s' % (n, bad),
+                breaks='an outcome defined at one node and referenced by number at another is dropped from the game or from the constant-sum check')
+
+
 def run(ctx):
     b = ctx.bin
     if b is None:
@@ -104,19 +137,16 @@ def run(ctx):
             for bi, st, fields in q.struct_sites(c, 'JoinedNode'):
                 n += 1
                 ctx.touch(c)
-                p = e4.try_poly(fields.get('cum_payoff', ('other', 'x')))
-                ups = sorted(facts.show(a[1]) for m_ in (p or {}) for a in m_)
-                ok = p is not None and len(p) == 2 and set(p.values()) == {1.0} and all(len(m_) == 1 and m_[0][0] == 'val' and strip_refs(m_[0][1])[0] == 'upvar' for m_ in p)
-                names = sorted(c.upvar_names.get(strip_refs(m_[0][1])[1], '?') for m_ in (p or {}) if m_ and strip_refs(m_[0][1])[0] == 'upvar')
-                # which captured values: the parent's cum_payoff field and its node payoff local
-                parent, agg = q.parent_agg(b, c)
+                # in terms of into_game_node itself (captures resolved through every closure level)
+                ce = q.resolve_captures(b, c, fields.get('cum_payoff', ('other', 'x')))
+                p = e4.try_poly(ce)
                 caps = []
-                if agg is not None and p is not None:
+                ok = p is not None and len(p) == 2 and set(p.values()) == {1.0} and all(len(m_) == 1 and m_[0][0] == 'val' for m_ in p)
+                if ok:
                     for m_ in p:
-                        u = strip_refs(m_[0][1])
-                        if u[0] == 'upvar' and u[1] < len(agg[2]):
-                            caps.append(facts.show(norm(agg[2][u[1]])))
-                good_caps = any(x.endswith('cum_payoff') for x in caps) and len(caps) == 2 and any(not x.endswith('cum_payoff') for x in caps)
+                        caps.append(facts.show(norm(m_[0][1])))
+                is_parent_cum = lambda x: x.endswith('.cum_payoff') and x.split('.')[0] in ('self', g.local_name(1) or 'self')
+                good_caps = len(caps) == 2 and sum(1 for x in caps if is_parent_cum(x)) == 1
                 ctx.verdict(ok and good_caps, rule, '%s:child-cumulative:%s' % (rule, 'chance' if 'closure#0' in c.name or n == 1 else 'player'),
                             'the cumulative payoff handed to a child is (+1)*parent cumulative + (+1)*this node\'s outcome payoff', c.where(bi), 'form: %s over captures %s' % (e4.show_poly(p), caps),
                             breaks='payoffs attached to interior nodes are lost or counted twice')
@@ -170,6 +200,7 @@ def run(ctx):
                 idx = i[0] == 'bin' and i[1] == 'Sub' and q.is_call(strip_refs(i[2]), 'player_num') and is_const(i[3], 1)
         ctx.verdict(bool(idx), rule, rule + ':name-table-index', 'infoset names are looked up in table player_num - 1', g.where(0), 'found: %s' % idx)
 
+    payoff_source(ctx, 'C15')
     # ---------------- (3) ordering
     rule = 'C15.sorted-before-use'
     if g is not None:
